@@ -173,8 +173,7 @@ func barrierCases(thorough bool) []barrierCase {
 		{Name: "2+1 deeper", Verb: "create", Resources: []string{"ConfigMap/a", "ConfigMap/b", "Secret/x1"}, Bound: b + 1},
 	}
 	if thorough {
-		cs = append(cs, barrierCase{Name: "2+2 unbounded", Verb: "create", Resources: []string{"ConfigMap/a", "ConfigMap/b", "Secret/x1", "Secret/x2"}, Bound: -1},
-			barrierCase{Name: "delete 2+2", Verb: "delete", Resources: []string{"Secret/x1", "Secret/x2", "ConfigMap/a", "ConfigMap/b"}, Bound: 3})
+		cs = append(cs, barrierCase{Name: "delete 2+2", Verb: "delete", Resources: []string{"Secret/x1", "Secret/x2", "ConfigMap/a", "ConfigMap/b"}, Bound: 2})
 	}
 	return cs
 }
@@ -182,7 +181,7 @@ func barrierCases(thorough bool) []barrierCase {
 func runBarrier(c *core.Ctx) {
 	maxExec := 400000
 	if c.Thorough() {
-		maxExec = 6000000
+		maxExec = 2000000
 	}
 	for _, bc := range barrierCases(c.Thorough()) {
 		if !c.NextMine() {
